@@ -120,8 +120,12 @@ impl<T: std::future::Future> std::future::Future for InSpan<T> {
     fn poll(self: std::pin::Pin<&mut Self>, cx: &mut std::task::Context<'_>) -> Poll<Self::Output> {
         let this = self.project();
 
-        let _guard = this.span.as_ref().map(|s| s.set_local_parent());
-        let res = this.inner.poll(cx);
+        // The guard must be dropped (submitting the local spans of this poll) before the span
+        // itself finishes, otherwise they arrive after a root span's commit.
+        let res = {
+            let _guard = this.span.as_ref().map(|s| s.set_local_parent());
+            this.inner.poll(cx)
+        };
 
         match res {
             r @ Poll::Pending => r,
